@@ -70,6 +70,7 @@ type Column struct {
 	NotNull bool   `json:"notnull,omitempty"`
 	PK      bool   `json:"pk,omitempty"`
 	AutoInc bool   `json:"autoincrement,omitempty"` // source only: INTEGER PRIMARY KEY AUTOINCREMENT
+	Default string `json:"default,omitempty"`       // source only: DEFAULT clause (SQL literal)
 }
 
 type Row struct {
@@ -144,6 +145,9 @@ func createSQL(t *Table) string {
 		}
 		if c.NotNull {
 			s += " NOT NULL"
+		}
+		if c.Default != "" {
+			s += " DEFAULT " + c.Default
 		}
 		cols = append(cols, s)
 	}
@@ -412,7 +416,9 @@ func ReadFile(path string) (*FileDump, error) {
 			if col.Name == t.GeomCols.Column {
 				continue
 			}
-			sel = append(sel, `typeof("`+col.Name+`")`, `"`+col.Name+`"`)
+			// unary plus: an expression has no declared type, so go-sqlite3 hands the stored
+			// value on as it is (no DATE/DATETIME/BOOLEAN conversion)
+			sel = append(sel, `typeof("`+col.Name+`")`, `+"`+col.Name+`"`)
 		}
 		q := `SELECT rowid, "` + t.GeomCols.Column + `"`
 		if len(sel) > 0 {
